@@ -13,8 +13,9 @@ for d in sorted(glob.glob(os.path.join(V, "seeded", "*"))):
     name = os.path.basename(d)
     clean = lambda t, n: re.sub(r"\s+", " ", str(t)).replace("|", "/")[:n]
     rows.append((name, clean(m.get("summary", ""), 170), clean(m.get("needs", ""), 130), m.get("caught")))
-r1 = [r for r in rows if "_r2_" not in r[0] and "_r3_" not in r[0] and "_r4_" not in r[0]]
+r1 = [r for r in rows if "_r2_" not in r[0] and "_r3_" not in r[0] and "_r4_" not in r[0] and "_r5_" not in r[0]]
 r4 = [r for r in rows if "_r4_" in r[0]]
+r5 = [r for r in rows if "_r5_" in r[0]]
 r2 = [r for r in rows if "_r2_" in r[0]]
 r3 = [r for r in rows if "_r3_" in r[0]]
 s += '''
@@ -33,12 +34,18 @@ change of each of: OPTIMISATION / FAST PATH (early exits, closed forms and float
 little or not invalidated, skipped normalisation), MODERNISATION / REFACTORING (f-string padding, truthiness replacing `is None`,
 `is` vs `==`, `range` loops with an off-by-one, reliance on dict order, helpers shared by callers they do not fit), DATA / TABLE /
 CONSTANT / PATTERN (one wrong row of a lookup table, one character of an alphabet, a regex that lost its anchor, a limit off by
-one, a narrowed block).  Every change listed was confirmed by me in a
+one, a narrowed block); round 5 (`tools/seed_prompt_r5.md`) asked for one change of each of: SCALE / THRESHOLD (right on small and
+medium inputs, wrong beyond a size or magnitude: a fast path for long lists, bisection or batching with a bug at the chunk
+boundary, float arithmetic beyond 2^53, values beyond `sys.maxsize`), INDIRECT PATH / COOPERATING SITES (right when called directly,
+wrong through another entry point: `IPGlob` standing in for `IPRange`, objects that went through pickle / copy, keyword vs
+positional arguments, a helper shared with other callers), EXOTIC BUT IN-SCOPE INPUT FORM OR ENVIRONMENT (trailing newline, Unicode
+digits and blanks that `int()` / `isdigit()` / `\\d` accept, mixed-case hexadecimal, objects with `__index__`, one-shot iterators,
+networks written with host bits, CPython's 4300-digit limit).  Every change listed was confirmed by me in a
 scratch worktree (`tools/eval_seeded.sh`: suite unchanged at 268 passed / 2 pre-existing failures; demo exits 0 on the
 untouched tree and 1 with the change) and the property's quick check was run against the changed tree.  The patch, the
 demo and `meta.json` (what it needs to manifest, what was run, the tail of the check output) are kept under `seeded/<name>/`.
 
-**Result: all %d changes (%d round 1, %d round 2, %d round 3, %d round 4) are caught by the quick tier of the property's own check.**  That was
+**Result: all %d changes (%d round 1, %d round 2, %d round 3, %d round 4, %d round 5) are caught by the quick tier of the property's own check.**  That was
 not so at first; the misses drove these additions:
 
 * round 1, 3 of 57 missed: `C02_2` (memoised `netmask` not invalidated by the `prefixlen` setter) → setter histories read
@@ -75,10 +82,27 @@ not so at first; the misses drove these additions:
   tie: every lifecycle history that assigned `.value` also assigned the prefix afterwards, which reset the memo → the lifecycle
   now reads all observers after EVERY mutator call and has single-mutator histories (`value=` alone, `prefixlen=` alone,
   `value=` twice, observers between the word assignments of an EUI); re-run: 29 failing inputs.
+* round 5, 9 of 60 missed at first, 5 of them of the SCALE kind: `C04_r5_1` (`smallest_matching_cidr` scanning only the last width+1
+  sorted candidates: needs more than 32 near misses) → candidate lists of 40…900 networks (thorough …4000) with a few true containers
+  among host routes and ancestor siblings; `C03_r5_1` (a length bound of 79 characters on CIDR text: needs a fully written IPv6 address
+  with a fully written mask) and `C17_r5_1` (nmap fast path computing `256 * wild` for `256 ** wild`), `C19_r5_2` (`EUI.oui` through
+  dialect-sized slices) → reported once the functions were inside the source tie (fourth translator round, below);
+  `C06_r5_1` (a lookup-based sweep used once the set holds more than 256 blocks) and `C07_r5_2` (a memoised sorted view that
+  `update(IPSet)` does not drop) → `big_history` (sets of 262 / 300 lone hosts, then small blocks added and removed around them) and the
+  public sorted views (`iter_cidrs`, `iter_ipranges`) read after EVERY mutating step of every history; `C20_r5_1` (`cidr_merge`
+  dropping the 1025th pending entry) → requests for 1025…4095 subnets at once, and `harness/callee_ties.py`: the source-tie theorems of
+  the callees a property's model composition relies on through hand-model symbols (`cidr_merge`, `subnet`, the constructors, `sorted`)
+  are obligations of that property's check too; `C14_r5_3` (an `IndexError` message that prints the operand: `ValueError` beyond 4300
+  digits) → operands of 4350 digits and shift counts in the thousands, which at once showed that the UNCHANGED tree had the same
+  defect on the `AddrFormatError` side (F-19, repaired); `C19_r5_3` (a separator-stripping regex that also strips lower-case
+  hexadecimal letters) → OUI / IAB text in upper, lower and mixed case and without hyphens.  Also added without a seed asking:
+  lists of 150…2600 items for `cidr_merge` and 120…2300 for `spanning_cidr`; round-robin distribution of the cases over the worker
+  processes (long cases no longer land in one worker); `harness/unistream.py` (text beyond latin-1 at the strict entry points).
+  All 60 are now reported.
 
 | seeded change | what was changed | needs, to manifest | caught |
 |---|---|---|---|
-''' % (len(rows), len(r1), len(r2), len(r3), len(r4))
+''' % (len(rows), len(r1), len(r2), len(r3), len(r4), len(r5))
 for r in rows:
     s += "| `%s` | %s | %s | %s |\n" % (r[0], r[1], r[2], "yes" if r[3] else "NO")
 
